@@ -122,12 +122,13 @@ PROPS = {
         stages=[dict(test="TestC11Encode", pkg="c11", quick=(8, 12000), thorough=(16, 600000), timeout=dict(quick=600, thorough=3300)),
                 dict(test="TestC11Tick", pkg="c11", quick=(4, 8000), thorough=(16, 200000), timeout=dict(quick=600, thorough=3300)),
                 dict(test="TestC11TickExhaustive", pkg="c11", thorough=(16, 1), timeout=dict(thorough=3300), no_rapid=True),
-                dict(test="TestC11Chain", quick=(8, 25), thorough=(16, 1500), timeout=dict(quick=900, thorough=3300))],
+                dict(test="TestC11Chain", quick=(8, 25), thorough=(16, 1500), timeout=dict(quick=900, thorough=3300)),
+                dict(test="TestC11Tunnel", quick=(4, 30), thorough=(8, 1500), timeout=dict(quick=900, thorough=3300))],
         rule="Encode: originators (direct/tunnel; empty, delimiter-like, long fields), times, signing ids and contents of every kind (oracle result "
              "proto/full ABI/partial ABI, feeds prices fixed-point/tick ABI, tunnel packet, transition, text) run through the real handlers, plus a "
              "second request differing in exactly one field; non-trivial = oracle payload with non-empty result or feeds/tunnel payload with >=2 "
              "prices. Tick: prices at floor/ceil of every sampled tick boundary +-1, fixed values and log-uniform values; non-trivial = p within one "
-             "price unit of a boundary. Thorough adds EVERY tick of the supported range with the four boundary prices. Chain: TSS history engine with user and governance-executed (sender = module authority) MsgRequestSignature over internal content kinds; non-trivial = >=2 signed messages parsed back and an oracle result or an internal-kind attempt; distinct = hash of case JSON",
+             "price unit of a boundary. Thorough adds EVERY tick of the supported range with the four boundary prices. Chain: TSS history engine with user and governance-executed (sender = module authority) MsgRequestSignature over internal content kinds; non-trivial = >=2 signed messages parsed back and an oracle result or an internal-kind attempt. Tunnel: the C08 tunnel histories (TSS-route tunnels with fixed-point and tick encoders, delisted / not-ready signals, deviation and interval packets); the signed bytes of every TSS packet are decoded with the reference decoders and compared with the stored packet (originator, time, sequence, every price entry); non-trivial = a decoded packet carrying a non-AVAILABLE price entry; distinct = hash of case JSON",
         explanation="reference layout written from the statement (keccak(originator)|u64 time|u64 id|content, tags = keccak(name)[:4], hand-written ABI and "
                     "proto encoders), round trip through go-ethereum abi / proto decoders with independently declared types, injectivity under single-"
                     "field change, pairwise distinct tags, internal kinds flagged; tick T must satisfy price(T) <= p < price(T+1) against a 384-bit "
@@ -154,11 +155,12 @@ PROPS = {
     ),
     "C13": dict(
         stages=[dict(test="TestC13Signing", quick=(16, 25), thorough=(16, 1500), timeout=dict(quick=900, thorough=3300)),
-                dict(test="TestC13Oracle", quick=(8, 30), thorough=(16, 2500), timeout=dict(quick=900, thorough=3300))],
+                dict(test="TestC13Oracle", quick=(8, 30), thorough=(16, 2500), timeout=dict(quick=900, thorough=3300)),
+                dict(test="TestC13Tunnel", quick=(4, 30), thorough=(8, 1500), timeout=dict(quick=900, thorough=3300))],
         rule="Oracle: 3 data sources with drawn fee vectors over 3 denoms (free, single, multi), scripts asking 1-4 sources incl. repeats, ask 1-3, fee "
              "limit exact / one denom -1 / +1 / zero / big / first denom only / one denom dropped, a poor payer funded exactly, one short, or only for the "
              "first k-1 sources; non-trivial = a request at a limit boundary or a balance running out midway. Signing: TSS history (see C05) with fee_per_signer in {0, 10uband, 7uband, 3uband+2uatom}, fee limits enough/exact/one-less/zero/"
-             "one-denom-only, a poor requester; non-trivial = a request at an exact limit boundary or a payout after a retry; distinct = hash of case JSON",
+             "one-denom-only, a poor requester; non-trivial = a request at an exact limit boundary or a payout after a retry. Tunnel: the C08 tunnel histories, where TSS-route tunnels make paid signing requests from the end blocker (members running out of nonces or deactivated, fee payers funded exactly / one short); only the money checks are evaluated; non-trivial = >=1 refused send; distinct = hash of case JSON",
         explanation="bank-balance accounting model: expected balance of every member, requester and the bandtss module account is updated "
                     "from the statement (escrow fee_per_signer x threshold on an accepted request, pay fee_per_signer to each assignee of the "
                     "successful current-group attempt, nothing on failure) and compared with the bank after every block; charged fee within "
